@@ -115,6 +115,25 @@ Definition init := init_sys CS.
 Definition stmt_pipeline_no_panic : Prop := forall f cache t0 ops,
   Forall (fun o => o <> OutLine true) (run_sys (init f cache t0) ops).
 
+(* the state after a history *)
+Definition final_sys (s : sys CS) (ops : list op) : sys CS :=
+  fold_left (fun s o => snd (step pf uni_word re_match heur_bt re_compiles CS c_get c_add c_reset builtins s o)) ops s.
+
+(* C19 / C14, an event that overlaps a reload.  Exporter.handleEvent asks the mapper twice
+   (GetMapping, then GetDefaults; two critical sections), so the rule an event was matched by may
+   belong to one configuration and the defaults it is handled with to another.  Whatever moments
+   of the system's life the rule (sA), the defaults (sB) and the registry (s) are taken from,
+   handling the event does not panic. *)
+Definition stmt_event_across_reload_no_panic : Prop :=
+  forall f cache t0 opsA opsB ops l evs t e,
+  let sA := final_sys (init f cache t0) opsA in
+  let sB := final_sys (init f cache t0) opsB in
+  let s := final_sys (init f cache t0) ops in
+  line_to_events pf f l = Ok (evs, t) -> In e evs ->
+  let rm := get_mapping uni_word re_match CS c_get c_add (s_mapper CS sA) (e_name e) (type_string (e_kind e)) in
+  let mapped := match fst rm with Some mr => lookup_rule CS (snd rm) mr | None => None end in
+  handle_event (m_defaults CS (s_mapper CS sB)) (s_now CS s) (s_exp CS s) e mapped <> HPanic.
+
 (* ---------- C03: every scrape succeeds ---------- *)
 (* names the binary's own collectors occupy (known finding: a client metric using one of them) *)
 Definition name_independent (n : bytes) (b : sample) : bool :=
